@@ -150,8 +150,14 @@ func (r *SortReg) seqSort(elem string, elemGo types.Type, name string) *SeqInfo 
 		name, si.At, si.Sub, si.At, si.At, si.Sub)
 	// upd
 	d("(assert (forall ((s %s) (k Int) (v %s)) (! (= (%s (%s s k v)) (%s s)) :pattern ((%s s k v)))))", name, elem, si.Len, si.Upd, si.Len, si.Upd)
-	d("(assert (forall ((s %s) (k Int) (v %s) (i Int)) (! (= (%s (%s s k v) i) (ite (= i k) v (%s s i))) :pattern ((%s (%s s k v) i)))))",
-		name, elem, si.At, si.Upd, si.At, si.At, si.Upd)
+	// update: only in-range positions are specified (an unguarded axiom contradicts extensionality), and for
+	// byte strings only byte values
+	rng := ""
+	if name == "Str" {
+		rng = " (<= 0 v) (< v 256)"
+	}
+	d("(assert (forall ((s %s) (k Int) (v %s) (i Int)) (! (=> (and (<= 0 k) (< k (%s s))%s) (= (%s (%s s k v) i) (ite (= i k) v (%s s i)))) :pattern ((%s (%s s k v) i)))))",
+		name, elem, si.Len, rng, si.At, si.Upd, si.At, si.At, si.Upd)
 	// extensionality (skolemised), triggered by the marker ext_<sort>
 	d("(declare-fun ext_%s (%s %s) Bool)", name, name, name)
 	d("(declare-fun extd_%s (%s %s) Int)", name, name, name)
